@@ -464,6 +464,7 @@ var argClasses = []struct{ name, json string }{
 	{"null", "null"}, {"true", "true"}, {"number", "1.5"}, {"string", `"s"`}, {"empty-array", "[]"},
 	{"array-number", "[3,1,2]"}, {"array-string", `["b","a"]`}, {"array-mixed", `[1,"a",null]`}, {"array-nested", "[[1],[2]]"},
 	{"array-objects", `[{"a":2},{"a":1}]`}, {"empty-object", "{}"}, {"object", `{"a":1,"b":"x"}`}, {"expref", "&@"},
+	{"array-null-numbers", "[null,8,4]"}, {"array-numbers-null", "[4,null,2]"}, {"array-strings-number", `["b","a",1]`},
 }
 
 var unknownNames = []string{"foo", "Length", "abs2", "to_str", "_"}
@@ -473,7 +474,11 @@ func TestC10Matrix(t *testing.T) {
 	maxArity := envInt("VERIF_C10_ARITY", 3)
 	shard, nshards := envInt("VERIF_SHARD", 0), envInt("VERIF_NSHARDS", 1)
 	names := append(append([]string{}, ref.FunctionNames...), unknownNames...)
-	st := statsFor("C10")
+	// under another property (C13: the same calls through the reuse legs of the differential
+	// predicate; a literal argument lives in the AST of the compiled expression) both carriers
+	// are used for every tuple
+	prop := envStr("VERIF_PROP", "C10")
+	st := statsFor(prop)
 	// document for the field carrier: one field per class
 	docParts := []string{}
 	for i, ac := range argClasses {
@@ -503,8 +508,21 @@ func TestC10Matrix(t *testing.T) {
 						}
 					}
 					expr := name + "(" + strings.Join(args, ", ") + ")"
-					run(t, Case{Property: "C10", Kind: "diff", Expr: expr, Doc: doc})
+					run(t, Case{Property: prop, Kind: "diff", Expr: expr, Doc: doc})
 					n++
+					if prop != "C10" {
+						for i, k := range idx {
+							if argClasses[k].name != "expref" {
+								if useField {
+									args[i] = lit(argClasses[k].json)
+								} else {
+									args[i] = fmt.Sprintf("f%d", k)
+								}
+							}
+						}
+						run(t, Case{Property: prop, Kind: "diff", Expr: name + "(" + strings.Join(args, ", ") + ")", Doc: doc})
+						n++
+					}
 				}
 				// next tuple
 				p := arity - 1
@@ -523,7 +541,7 @@ func TestC10Matrix(t *testing.T) {
 		}
 	}
 	st.mu.Lock()
-	st.Exhaustive["C10.matrix"] = fmt.Sprintf("%d names (26 built-ins + %d unknown) x arity 0..%d x %d argument classes per position (shard %d/%d: %d calls)", len(names), len(unknownNames), maxArity, len(argClasses), shard, nshards, n)
+	st.Exhaustive[prop+".matrix"] = fmt.Sprintf("%d names (26 built-ins + %d unknown) x arity 0..%d x %d argument classes per position (shard %d/%d: %d calls)", len(names), len(unknownNames), maxArity, len(argClasses), shard, nshards, n)
 	st.mu.Unlock()
 }
 
